@@ -14,7 +14,9 @@ from vp.fuzz import fuzz_custom
 PROPERTY = "C16"
 RULE = ("Hypothesis-generated texts / byte strings / cut points / charsets / chunk sizes / "
         "seek offsets / content types, each compared with an independent model (whole-string "
-        "decode, slice of the data, structural equality). Non-trivial: a cut inside a "
+        "decode, slice of the data, structural equality); texts up to 8192 repetitions long (beyond one chunk), as_text() "
+        "after an abandoned, partly consumed iter_text() of the same object, two iter_bytes() iterators of one stream "
+        "content obtained before either is consumed. Non-trivial: a cut inside a "
         "multi-byte character, or data length a positive multiple of chunk_size, or a seek "
         "offset != 0, or >= 2 content-type parameters, or a snapshot taken before a mutation; "
         "distinct = distinct canonical spec.")
